@@ -173,21 +173,38 @@ def clear_replay(tally, case, mk_layer, step, xs, T, fresh_out):
                 return
 
 
-def serial_md_shard(skind, T):
+def serial_md_shard(skind, T, f64=False):
     """multi-dimensional populations: Serial(LinearDense((1,2) -> (2,1)), LIF((2,1))) equals, element for element, the flat layer
     on the same histories, its output has the neuron group's batched shape, and clear() restores it"""
     tally = Tally()
     hs, xs = inputs_for(T)
     B = len(hs)
-    case = {"layer": "Serial[multi-dimensional]", "inshape": [1, 2], "outshape": [2, 1], "synapse": skind, "T": T}
+    case = {"layer": "Serial[multi-dimensional]" + ("[float64]" if f64 else ""), "inshape": [1, 2], "outshape": [2, 1], "synapse": skind, "T": T, "float64": f64}
 
     def mk():
         c = LinearDense((1, 2), (2, 1), DT, synapse=syn(skind), batch_size=B, weight_init=lambda w: W1.clone(), delay=2.0,
                         delay_init=lambda d: torch.tensor([[0.0, 1.0], [2.0, 1.0]]))
-        return Serial(c, LIF((2, 1), DT, rest_v=0.0, reset_v=-0.5, thresh_v=1.0, refrac_t=2.0, time_constant=2.0, batch_size=B))
+        L = Serial(c, LIF((2, 1), DT, rest_v=0.0, reset_v=-0.5, thresh_v=1.0, refrac_t=2.0, time_constant=2.0, batch_size=B))
+        return L.to(torch.float64) if f64 else L
+
+    if f64:
+        # a layer converted with .to(float64): clear() must leave every floating-point state tensor float64
+        try:
+            L = mk()
+            for t in range(2):
+                L(xs[t].reshape(B, 1, 2).clone())
+            L.clear()
+            bad = sorted(k for k, v in L.state_dict().items() if isinstance(v, torch.Tensor) and v.is_floating_point() and v.dtype != torch.float64)
+            bad += [n for n, v in (("neuron.voltage", L.neuron.voltage), ("neuron.refrac", L.neuron.refrac)) if v.dtype != torch.float64]
+            if bad:
+                tally.violation("clear-changed-dtype:Serial[float64]", case, f"after clear() these state tensors are no longer float64: {bad}", "torch.float64", bad)
+        except Exception as ex:
+            tally.violation(f"exception:serial-md:f64:{type(ex).__name__}", case, repr(ex))
 
     try:
         layer, flat = mk(), Serial(dense(B, W1, skind, 2.0), lif(B))
+        if f64:
+            flat = flat.to(torch.float64)
         for t in range(T):
             tally.add("steps")
             out = layer(xs[t].reshape(B, 1, 2).clone())
@@ -202,7 +219,7 @@ def serial_md_shard(skind, T):
         tally.violation(f"exception:serial-md:{type(ex).__name__}", case, repr(ex))
         return tally
     clear_replay(tally, case, mk, lambda L, x: L(x.reshape(B, 1, 2).clone()), xs, T, None)
-    tally.mark("nontrivial", ("serial-md", skind))
+    tally.mark("nontrivial", ("serial-md", skind, f64))
     tally.add("histories", B)
     return tally
 
@@ -456,6 +473,7 @@ def run(rep):
             jobs.append((biclique_shard, (combine, tr, T)))
     for skind in ("delta", "exp"):
         jobs.append((serial_md_shard, (skind, T)))
+        jobs.append((serial_md_shard, (skind, T, True)))
     for nc, nn_ in ((2, 1), (1, 2), (3, 1), (3, 2), (1, 1)):
         for skind in ("exp", "delta-delayed"):
             jobs.append((biclique_unequal_shard, (nc, nn_, skind, T)))
@@ -488,7 +506,7 @@ def run(rep):
         "rule": "every boolean input history of length T (as batch) x every layer topology / combine mode / transform choice x every clear "
                 "position; non-trivial = distinct topologies",
     }
-    return rep.finish(cov, floors={"transitions": 150, "distinct_nontrivial": 62})
+    return rep.finish(cov, floors={"transitions": 150, "distinct_nontrivial": 64})
 
 
 def replay(case):
